@@ -431,8 +431,9 @@ func (fi *FuncInfo) Visit(node ast.Node) ast.Visitor {
 		}
 		return fi
 	case *ast.RangeStmt:
-		if _, ok := fi.pkgInfo.TypeOf(n.X).Underlying().(*types.Chan); ok {
-			// for-range loop over a channel is blocking.
+		if _, ok := fi.resolver.Substitute(fi.pkgInfo.TypeOf(n.X)).Underlying().(*types.Chan); ok {
+			// for-range loop over a channel is blocking. The operand may be of a
+			// type parameter's type, which is a channel only in this instance.
 			fi.markBlocking(fi.visitorStack)
 		}
 		if fi.loopReturnIndex >= 0 {
